@@ -579,6 +579,13 @@ func (bp *baseProcessor) checkHeaderBodyCorrelation(miniBlockHeaders []block.Min
 		if mbHdr.SenderShardID != miniBlock.SenderShardID {
 			return process.ErrHeaderBodyMismatch
 		}
+
+		if mbHdr.Type != miniBlock.Type {
+			return process.ErrHeaderBodyMismatch
+		}
+
+		// each header entry can be matched by one body miniblock only
+		delete(mbHashesFromHdr, string(mbHash))
 	}
 
 	return nil
